@@ -699,6 +699,12 @@ class Session:
             ch = pool.changed()
             if ch is None:          # (an earlier mutation by the library is reported by the call that follows)
                 target = pool.objs[op['obj']]
+                if op['key'] is None and not target.flags.writeable:
+                    # only an interrupted call can leave the caller's array read-only (a guard that had
+                    # no chance to undo itself); nothing is demanded of it, the caller cannot edit
+                    res.stats['user_edit_skipped_array_left_read_only'] += 1
+                    self.hist.append((s, 'user_edit', (op['obj'], op['key']), 'read-only'))
+                    return
                 if op['key'] is None:               # a signal array: same object, new contents
                     if op['value'] == 'scale':
                         np.multiply(target, 2, out=target, casting='unsafe')
